@@ -265,7 +265,9 @@ func (s *vFlatSys) recheck(hist []vOp) {
 	s.qs = all
 }
 
-func (s *vFlatSys) Key() string {
+func (s *vFlatSys) Key() string { return s.keyCanon() + "#deep" + vDeepHash(s.idx) }
+
+func (s *vFlatSys) keyCanon() string {
 	return vCanonVec(s.idx) + "#" + s.m.key() + "#pool" + fmt.Sprint(len(documentFilterPool.Contents()))
 }
 
